@@ -206,6 +206,7 @@ pub fn run() {
     run_family("sentences", &sentences, &mut fam, &mut all);
     run_family("line-shapes", &corpus::shape_programs(), &mut fam, &mut all);
     run_family("label-rules", &corpus::label_programs(), &mut fam, &mut all);
+    run_family("character-classes", &corpus::char_class_programs(), &mut fam, &mut all);
     let vals = value_programs();
     run_family("values-comments-labels", &vals, &mut fam, &mut all);
     let repo: Vec<String> = corpus::repo_programs().into_iter().map(|p| p.1).collect();
